@@ -5,7 +5,7 @@ for d in "$@"; do
   if ! git -C /repo apply --check $d/patch.diff 2>/dev/null; then echo "$d $prop APPLY-FAIL"; continue; fi
   git -C /repo apply $d/patch.diff
   /verif/check $prop quick > /tmp/matrix.out 2>&1; rc=$?
-  rules=$(grep -oE "^[^ ]+: \[[A-Z-]+\]" /tmp/matrix.out | grep -oE "\[[A-Z-]+\]" | sort | uniq -c | tr '\n' ' ')
+  rules=$(grep -oE "^[^ ]*: \[[A-Z-]+\]" /tmp/matrix.out | grep -oE "\[[A-Z-]+\]" | sort | uniq -c | tr '\n' ' ')
   echo "$d $prop exit=$rc $rules"
   git -C /repo checkout -- .
 done
